@@ -15,19 +15,19 @@ Section Route.
   Context {K : Type} `{Countable K} {V : Type}.
   Variable want : K → bool.          (* the keys the receiver registered for / that pass the filter *)
 
-  Definition route (m : dmsg K V) : list (dmsg K V) :=
+  Definition dispatch (m : dmsg K V) : list (dmsg K V) :=
     match m with
     | DOp o => if want (op_key o) then [m] else []
     | _ => [m]                        (* status (in-sync) and flush reach every receiver *)
     end.
   Definition restrict (s : gmap K V * bool) : gmap K V * bool := (filter (λ kv, want kv.1 = true) s.1, s.2).
 
-  Lemma route_hf : hf (X := DS K V) (Y := DS K V) (pipe_map route) (λ _, True) (λ _, True) restrict.
+  Lemma route_hf : hf (X := DS K V) (Y := DS K V) (pipe_map dispatch) (λ _, True) (λ _, True) restrict.
   Proof.
-    apply (hf_map_hom (X := DS K V) (Y := DS K V) route restrict).
+    apply (hf_map_hom (X := DS K V) (Y := DS K V) dispatch restrict).
     - intros ?. reflexivity.
     - unfold restrict. simpl. by rewrite map_filter_empty.
-    - intros [m b] [[k v|k]| |]; unfold route, restrict; simpl; try done.
+    - intros [m b] [[k v|k]| |]; unfold dispatch, restrict; simpl; try done.
       + destruct (want k) eqn:E; simpl.
         * f_equal. by rewrite map_filter_insert_True.
         * f_equal. rewrite map_filter_insert_not'; [done|simpl; congruence|].
